@@ -159,6 +159,49 @@ pub fn run(ctx: &RunCtx, rep: &mut Report) {
             (r, json!({"config": cfg.show(), "depth": st.depth_completed, "states": st.states, "transitions": st.transitions}))
         })
         .collect();
+    // application collections built by add AND remove: the three trailer attributes added in every order, then one of them
+    // removed (and in half of the lists added again), sent as request and as indication from a fresh client of every
+    // configuration: the packet still ends in one valid FINGERPRINT
+    let results = {
+        let mut results = results;
+        let trailers = [L::Mi, L::Sha, L::Fp];
+        let types = [codec::T_MI, codec::T_SHA, codec::T_FP];
+        let orders: [[usize; 3]; 6] = [[0, 1, 2], [0, 2, 1], [1, 0, 2], [1, 2, 0], [2, 0, 1], [2, 1, 0]];
+        let mut lists: Vec<Vec<L>> = vec![];
+        for o in orders {
+            for rm in 0..3 {
+                for readd in [false, true] {
+                    let mut l = vec![L::Software("app".into())];
+                    l.extend(o.iter().map(|i| trailers[*i].clone()));
+                    l.push(super::world::remove_op(types[rm]));
+                    if readd {
+                        l.push(trailers[rm].clone());
+                    }
+                    lists.push(l);
+                }
+            }
+        }
+        let lists = Arc::new(lists);
+        let mut r = Report::new();
+        for cfg in &cfgs {
+            for app in 0..lists.len() {
+                for indication in [false, true] {
+                    if indication && matches!(cfg.mech, Mech::LongTerm) {
+                        continue;
+                    }
+                    let proto = Mon { finals_before: vec![] };
+                    let mut run = explore::start(cfg, &lists, &proto);
+                    let ev = if indication { Event::Indicate { app } } else { Event::Send { app } };
+                    let h = vec![ev.clone()];
+                    explore::step(&mut run, &ev, Some((&mut r, &h)));
+                    r.transitions += 1;
+                }
+            }
+        }
+        r.sym("client-add-remove-collections");
+        results.push((r, json!({"add_remove_collections": lists.len()})));
+        results
+    };
     let mut per = vec![];
     let (mut states, mut transitions) = (0u64, 0u64);
     for (r, j) in results {
